@@ -308,15 +308,20 @@ def rule_token_hints(ctx, rep):
                             if shifted != b2.occs:
                                 bad_comma.append((s, s2, b.occs, b2.occs))
             # nan tokens never reach apply: the number of apply events equals that of the script without them is too strong; check words
+            live_ids = set()
+            for e in b.events:
+                if e[0] == 'format-ds':
+                    live_ids.update(e[1])
             nan_words = {t[0] for t in s if t[1]}
             clean_words = {t[0] for t in s if not t[1]}
             for e in b.events:
-                if e[0] in ('apply', 'apply_decimal') and e[1] in nan_words and e[1] not in clean_words:
+                if e[0] in ('apply', 'apply_decimal') and e[1] in nan_words and e[1] not in clean_words and e[3] == 'Ok' and \
+                        (len(e) <= 4 or e[4] in live_ids):
                     bad_nan_apply.append((s, e[1]))
         rep.check(not bad_nan, R, 'nan|outside-occurrences', 'never inside an occurrence',
                   'a not-a-number-part token lies inside an occurrence, e.g. `%s` (token %d)' % ((show(bad_nan[0][0]), bad_nan[0][1]) if bad_nan else ('', 0)))
-        rep.check(not bad_nan_apply, R, 'nan|never-interpreted', 'never handed to the interpreter',
-                  'a not-a-number-part token is interpreted as a number word, e.g. `%s`' % (show(bad_nan_apply[0][0]) if bad_nan_apply else ''))
+        rep.check(not bad_nan_apply, R, 'nan|never-interpreted', 'never absorbed by a builder that ends up as a number',
+                  'a not-a-number-part token is absorbed as a number word into a number that is reported, e.g. `%s`' % (show(bad_nan_apply[0][0]) if bad_nan_apply else ''))
         rep.check(not bad_same, R, 'sep|not-with-predecessor', 'never in the same occurrence as its predecessor',
                   'a token separated from its predecessor shares an occurrence with it, e.g. `%s` (token %d)' % ((show(bad_same[0][0]), bad_same[0][1]) if bad_same else ('', 0)))
         if bad_comma:
@@ -353,17 +358,23 @@ def rule_occurrence_wellformed(ctx, rep):
             reads = -1
             cur = []
             numbers = []
+            live = None
             for e in b.events:
                 if e[0] == 'read':
                     reads = e[1]
                 elif e[0] in ('apply', 'apply_decimal') and e[3] == 'Ok':
-                    cur.append(reads)
+                    cur.append((reads, e[4] if len(e) > 4 else None))
                 elif e[0] == 'ds-reset':
                     pass
+                elif e[0] == 'format-ds':
+                    live = set(e[1])
                 elif e[0] in ('format', 'format-dec'):
                     ordinal = e[2] if e[0] == 'format' else e[3]
-                    numbers.append((cur, e[-1], ordinal))
+                    # only the words absorbed by the builders that are formatted make up the number (a word tried on a scratch
+                    # builder that is then dropped has no part in it)
+                    numbers.append(([r_ for r_, ds_ in cur if live is None or ds_ is None or ds_ in live], e[-1], ordinal))
                     cur = []
+                    live = None
             last_end = 0
             for o in b.occs:
                 start, end, text, value, is_ord = o
